@@ -6,8 +6,12 @@
 
 package fastcgi
 
-//@ unit fcgi_records frames=on props=C13,C19 filter=`streamWriter\)\.(Write|Close)$|FCGIClient\)\.(writeBeginRequest|writeEndRequest|writePairs)$|record\)\.read$|fastcgi\.(encodeSize|header\)\.init)$|fastcgi\.newWriter$`
+//@ unit fcgi_records frames=on props=C13,C19 filter=`streamWriter\)\.(Write|Close)$|bufWriter\)\.Close$|FCGIClient\)\.(writeBeginRequest|writeEndRequest|writePairs)$|record\)\.read$|fastcgi\.(encodeSize|header\)\.init)$|fastcgi\.newWriter$`
+//@ // representation invariant of the buffered stream writer newWriter builds: it has its bufio.Writer and its closer
 //@ func (*bufWriter).Close
+//@   requires w != nil && w.Writer != nil && w.closer != nil
+//@ extern bufio.NewWriterSize
+//@   ensures result != nil
 //@ func (*FCGIClient).writeRecord
 //@   requires [len_fits] len(content) <= 65535
 
@@ -41,7 +45,7 @@ package fastcgi
 //@   ensures [arity] (result == 1 || result == 4) && ((result == 1) == (size <= 127))
 //@   ensures [roundtrip] decodeSize(b) == int(old(size))
 //@ func newWriter
-//@   ensures result != nil
+//@   ensures result != nil && result.Writer != nil && result.closer != nil
 //@ func (*FCGIClient).writePairs
 //@   modifies E:uint8
 //@   requires c != nil
@@ -242,3 +246,8 @@ package fastcgi
 //@   requires [len_fits] len(content) <= 65535
 //@   modifies header.Version, header.Type, header.ID, header.ContentLength, header.PaddingLength, ghost:held
 //@   ensures [lock_balance] held(c.mutex) == old(held(c.mutex))
+
+//@ unit fcgi_client_rest_sweep props=C19,C13 files=fcgiclient.go nilchecks=on nonnil_params=on exclude=`streamWriter\)\.(Write|Close)$|bufWriter\)\.Close$|FCGIClient\)\.(writeBeginRequest|writeEndRequest|writePairs|writeRecord|Request|Get|Head|Options|Post)$|record\)\.read$|fastcgi\.(encodeSize|chunked|newWriter|writeHeader)$|header\)\.init$|streamReader\)\.Read$` filter=`.`
+//@ // the remaining client code (dialling, Do, form and file posts, timeouts, closing): safety sweep
+//@ use @verif/specs/stdlib.spec:stdlib
+//@ use caskethttp/fastcgi/contracts_verif.go:fcgi_records
